@@ -29,6 +29,7 @@ def run(chk):
 
 
 MUTANTS = [
+    ("qr: R gets meta-fusion of the left group", "yastn/tensor/linalg.py", "    Rmfs = ((1,),) + tuple(a.mfs[ii] for ii in out_mr)", "    Rmfs = ((1,),) + tuple(a.mfs[ii] for ii in out_ml)", "L3"),
     ("Vs with +sU", "yastn/tensor/linalg.py", "    Vstruct = _struct(s=(-sU, struct.s[1]), n=Vn, diag=False, t=Vt, D=VD, size=sum(VDp))", "    Vstruct = _struct(s=(sU, struct.s[1]), n=Vn, diag=False, t=Vt, D=VD, size=sum(VDp))", "S4"),
     ("swap Uaxis/Vaxis", "yastn/tensor/linalg.py", "    U = U.moveaxis(source=-1, destination=Uaxis)\n    V = V.moveaxis(source=0, destination=Vaxis)\n    return U, S, V\n\n\ndef _find_gaps",
      "    U = U.moveaxis(source=-1, destination=Vaxis)\n    V = V.moveaxis(source=0, destination=Uaxis)\n    return U, S, V\n\n\ndef _find_gaps", "S5"),
